@@ -1,0 +1,27 @@
+//go:build verif
+
+package logic
+
+// Read-only views used by the verification harness (/verif). Built only with
+// -tags verif; nothing here changes behaviour.
+
+// VerifPushSessionCount returns how many relay-push targets currently have an
+// attached push session.
+func (group *Group) VerifPushSessionCount() int {
+	group.mutex.Lock()
+	defer group.mutex.Unlock()
+	n := 0
+	for _, v := range group.url2PushProxy {
+		if v.pushSession != nil {
+			n++
+		}
+	}
+	return n
+}
+
+// VerifHasInSession reports whether an input is attached.
+func (group *Group) VerifHasInSession() bool {
+	group.mutex.Lock()
+	defer group.mutex.Unlock()
+	return group.hasInSession()
+}
